@@ -367,7 +367,7 @@ func shrinkSample(data []byte) (out []byte) {
 	}
 	for _, ie := range collectIEs(reflect.ValueOf(m)) {
 		v := ie.Elem()
-		lf, bf := v.FieldByName("Len"), v.FieldByName("Buffer")
+		lf, bf := directField(v, "Len"), directField(v, "Buffer")
 		if !lf.IsValid() || !bf.IsValid() || bf.Kind() != reflect.Slice || bf.Len() <= 48 {
 			continue
 		}
@@ -434,14 +434,14 @@ func mutateIE(v reflect.Value, r *Rng) {
 		strings.Contains(t.Name(), "PTI") {
 		return
 	}
-	if f := v.FieldByName("Buffer"); f.IsValid() && f.Kind() == reflect.Slice && f.Type().Elem().Kind() == reflect.Uint8 && f.CanSet() {
+	if f := directField(v, "Buffer"); f.IsValid() && f.Kind() == reflect.Slice && f.Type().Elem().Kind() == reflect.Uint8 && f.CanSet() {
 		n := f.Len()
 		if n > 0 {
 			nb := r.Bytes(n)
 			reflect.Copy(f, reflect.ValueOf(nb))
 		}
 	}
-	if f := v.FieldByName("Octet"); f.IsValid() && f.CanSet() {
+	if f := directField(v, "Octet"); f.IsValid() && f.CanSet() {
 		switch f.Kind() {
 		case reflect.Uint8:
 			if _, hasIei := t.FieldByName("Iei"); hasIei {
@@ -843,7 +843,7 @@ func (c *Catalogue) buildAccessors(in *Inst, t *RegType, r *Rng) {
 				func() {
 					defer func() {
 						if p := recover(); p != nil {
-							if vsimrt.IsAbort(p) {
+							if vsimrt.IsAbort(p) || vsimrt.IsRunaway(p) {
 								panic(p)
 							}
 							out = append(out, fmt.Sprint("panic:", p))
@@ -860,7 +860,7 @@ func (c *Catalogue) buildAccessors(in *Inst, t *RegType, r *Rng) {
 			func() {
 				defer func() {
 					if p := recover(); p != nil {
-						if vsimrt.IsAbort(p) {
+						if vsimrt.IsAbort(p) || vsimrt.IsRunaway(p) {
 							panic(p)
 						}
 						out = append(out, fmt.Sprint("panic:", p))
@@ -1051,7 +1051,7 @@ func (c *Catalogue) buildShared(in *Inst, env *Env, r *Rng) {
 				case cr.In == p.Type().Elem():
 					jobs = append(jobs, job{cr.F.Fn, p.Elem()})
 				case cr.In == byteSliceType:
-					if b := p.Elem().FieldByName("Buffer"); b.IsValid() && b.Type() == byteSliceType && r.Chance(20) {
+					if b := directField(p.Elem(), "Buffer"); b.IsValid() && b.Type() == byteSliceType && r.Chance(20) {
 						jobs = append(jobs, job{cr.F.Fn, b})
 					}
 				}
@@ -1071,7 +1071,7 @@ func (c *Catalogue) buildShared(in *Inst, env *Env, r *Rng) {
 				func() {
 					defer func() {
 						if p := recover(); p != nil {
-							if vsimrt.IsAbort(p) {
+							if vsimrt.IsAbort(p) || vsimrt.IsRunaway(p) {
 								panic(p)
 							}
 							out = append(out, fmt.Sprint("panic:", p))
@@ -1110,7 +1110,7 @@ func (c *Catalogue) buildRecycle(in *Inst, env *Env, task int, r *Rng) {
 			func() {
 				defer func() {
 					if pv := recover(); pv != nil {
-						if vsimrt.IsAbort(pv) {
+						if vsimrt.IsAbort(pv) || vsimrt.IsRunaway(pv) {
 							panic(pv)
 						}
 						out = append(out, fmt.Sprint("panic:", pv))
